@@ -68,6 +68,7 @@ type runner struct {
 	grpCnt   map[int][]int
 	prevLog  []byte        // the previous call's result as logged
 	prevRead func() []byte // re-reads the slice the previous call returned
+	place    func(n int) []byte // nil: a private array per call; else where the payload of n octets (plus what may be checked behind it) lies
 }
 
 func newRunner(rng *rand.Rand) *runner {
@@ -166,7 +167,16 @@ func (r *runner) runCase(c Case) Ev {
 	e := Ev{Op: c.Op, Alg: c.Alg, Key: key, Cnt: cnt, Bearer: c.Bearer, Dir: c.Dir, Data: ev.Ints(data), Nbits: c.Nbits, Out: []int{}, Prev: []int{}, Held: []int{}}
 	// the message / payload is a VIEW of a larger array (part of a receive buffer): 24 octets of 0xA5 lie behind it.  What the
 	// functions compute depends on the first len octets only, and nothing behind them is written.
-	big := make([]byte, len(data)+24)
+	var big []byte
+	if r.place != nil {
+		// concurrent runs (C19): the goroutine's region of an arena all goroutines share - behind the payload of an even
+		// goroutine lies, without a gap, the payload of its odd neighbour (len(big) == len(data): nothing behind is ours to look at)
+		big = r.place(len(data))
+	} else {
+		// ... that starts at any of the eight octet offsets of an aligned word (a sub-slice of a frame: frame[1:], frame[6:])
+		off := (3*nbytes + c.Bearer + 5*c.Alg + c.Dir) % 8
+		big = make([]byte, off+len(data)+24)[off:]
+	}
 	copy(big, data)
 	for i := len(data); i < len(big); i++ {
 		big[i] = 0xA5
@@ -249,6 +259,9 @@ func (r *runner) runCase(c Case) Ev {
 			out[i] = ^out[i]
 		}
 		o := out
+		if r.place != nil && c.Op == "NASEncrypt" {
+			o = append([]byte{}, out...) // the payload lies in the goroutine's arena region, which the next case fills anew
+		}
 		r.prevRead = func() []byte { return o }
 	}
 	return e
